@@ -23,7 +23,7 @@ func RemovePrefix(prefix string, mask *fieldmaskpb.FieldMask) *fieldmaskpb.Field
 			case strings.HasPrefix(path, "*."):
 				path = path[2:]
 			}
-			out.Paths = append(mask.Paths, path)
+			out.Paths = append(out.Paths, path)
 		}
 	}
 
